@@ -363,6 +363,7 @@ Definition wf_line (l : bytes) : bool :=
   match l with
   | c :: _ => if Ascii.eqb c (nb 42) then forallb (fun c => negb (is_sp c)) l && Nat.ltb 2 (length l)
               else if Ascii.eqb c (nb 45) then forallb (fun c => negb (is_sp c)) l
+                   && match l with _ :: c2 :: _ => negb (Ascii.eqb c2 (nb 42)) || Nat.ltb 3 (length l) | _ => true end
               else true
   | [] => true
   end.
